@@ -1,0 +1,177 @@
+//go:build verif
+
+package mp4
+
+// Property C02 for the box types of list c02a: representation invariants boxOK@T and encoder loop invariants.
+
+// ---------------------------------------------------------------- co64
+// entry count is a 32-bit field: DecodeCo64SR makes the slice with a uint32 length (co64.go:45)
+//@ pred boxOK@Co64Box(b *Co64Box) = len(b.ChunkOffset) < 1<<32
+//@ func (*Co64Box).EncodeSW
+//@   loop 1 invariant adv(sw, 16 + 8*idx(1))
+
+// ---------------------------------------------------------------- colr
+// ColorType is read with ReadFixedLengthString(4) (colr.go:46)
+//@ pred boxOK@ColrBox(b *ColrBox) = len(b.ColorType) == 4
+
+// ---------------------------------------------------------------- cslg
+// FINDING: DecodeCslgSR (cslg.go:34-51) accepts any version byte; for Version >= 2 Size() (32+20*Version in uint8, cslg.go:63)
+// and EncodeSW (52 bytes, cslg.go:85-97) disagree. Not established by the decoder; test TestC02aCslgVersion2.
+// (repaired by a fix: commit; no representation invariant needed any more)
+
+// ---------------------------------------------------------------- ctts
+// 32-bit entry count: DecodeCttsSR makes SampleOffset with a uint32 length (ctts.go:47); EndSampleNr has one element more
+// (ctts.go:46, AddSampleCountsAndOffset ctts.go:118-125 keeps that relation).
+//@ pred boxOK@CttsBox(b *CttsBox) = len(b.SampleOffset) < 1<<32 && len(b.EndSampleNr) == len(b.SampleOffset) + 1
+//@ func (*CttsBox).EncodeSW
+//@   loop 1 invariant 0 <= i && i <= len(b.SampleOffset) && adv(sw, 16 + 8*i)
+//@ func (*CttsBox).NrSampleCount
+//@   inline
+
+// ---------------------------------------------------------------- dac3
+// no representation invariant needed: 24 bits are written after InitialZeroes whole bytes, whatever the pending bit count
+//@ func (*Dac3Box).EncodeSW
+//@   loop 1 invariant 0 <= i && i <= int(b.InitialZeroes) && adv(sw, 8 + i)
+
+// ---------------------------------------------------------------- dec3
+// no representation invariant needed; Size() has a loop and gets a contract in terms of ec3Sum
+//@ spec rec ec3Sum(s []EC3Sub, n int) int = ite(n <= 0, 0, ec3Sum(s, n-1) + ite(s[n-1].NumDepSub > 0, 4, 3))
+//@ func (*Dec3Box).Size
+//@   pure
+//@   ensures result == uint64(10 + ec3Sum(b.EC3Subs, len(b.EC3Subs)) + len(b.Reserved))
+//@   assigns nothing
+//@   loop 1 invariant 0 <= idx(1) && idx(1) <= len(b.EC3Subs) && size == 10 + ec3Sum(b.EC3Subs, idx(1))
+//@ func (*Dec3Box).EncodeSW
+//@   loop 1 invariant adv(sw, 10 + ec3Sum(b.EC3Subs, idx(1)))
+
+// ---------------------------------------------------------------- elst
+// 32-bit entry count: DecodeElstSR makes Entries with a uint32 length (elst.go:50)
+//@ pred boxOK@ElstBox(b *ElstBox) = len(b.Entries) < 1<<32
+//@ func (*ElstBox).EncodeSW
+//@   loop 1 invariant adv(sw, 16 + 20*idx(1))
+//@   loop 2 invariant adv(sw, 16 + 12*idx(2))
+
+// ---------------------------------------------------------------- emsg
+// no representation invariant needed. NOT PROVED: post@1 stays `unknown` (z3/cvc5, also with -timeout 30000). Size() and the
+// write sequence sum the same four terms (old off, len(SchemeIDURI), len(Value), len(MessageData)) in different association
+// orders under the guards of the writer contracts; z3 needs 7 min for the path-resolved VC (unsat), i.e. valid but out of reach.
+
+// ---------------------------------------------------------------- hdlr
+// HandlerType is read with ReadFixedLengthString(4) (hdlr.go:75); CreateHdlr sets a 4-character literal or checks len == 4 (hdlr.go:29-53)
+//@ pred boxOK@HdlrBox(b *HdlrBox) = len(b.HandlerType) == 4
+
+// ---------------------------------------------------------------- leva
+// no representation invariant needed; Size() has a loop and gets a contract in terms of levaSum
+//@ spec levaLvl(t byte) uint64 = ite(t == 0 || t == 4, uint64(9), ite(t == 1, uint64(13), uint64(5)))
+//@ func (LevaLevel).Size
+//@   inline
+//@ func (LevaLevel).AssignmentType
+//@   inline
+//@ spec rec levaSum(s []LevaLevel, n int) uint64 = ite(n <= 0, uint64(0), levaSum(s, n-1) + levaLvl(s[n-1].paddingAndAssignmentType & 0x7f))
+//@ func (*LevaBox).Size
+//@   pure
+//@   ensures result == 13 + levaSum(b.Levels, len(b.Levels))
+//@   assigns nothing
+//@   loop 1 invariant 0 <= idx(1) && idx(1) <= len(b.Levels) && size == 13 + levaSum(b.Levels, idx(1))
+//@ func (*LevaBox).EncodeSW
+//@   loop 1 invariant adv(sw, 13 + int(levaSum(b.Levels, idx(1))))
+
+// ---------------------------------------------------------------- tlou / alou (LoudnessBaseBox)
+// Name is hdr.Name (lou.go:55), four characters by hdrOK
+//@ pred boxOK@LoudnessBaseBox(b *LoudnessBaseBox) = len(b.Name) == 4
+//@ spec rec louSum(s []*LoudnessBase, n int, v1 bool) int = ite(n <= 0, 0, louSum(s, n-1, v1) + ite(v1, 8, 7) + len(s[n-1].Measurements)*3)
+//@ spec louHead(b *LoudnessBaseBox) int = ite(b.Version >= 1, 13, 12)
+//@ func (*LoudnessBaseBox).Size
+//@   pure
+//@   ensures result == uint64(louHead(b) + louSum(b.LoudnessBases, len(b.LoudnessBases), b.Version >= 1))
+//@   assigns nothing
+//@   loop 1 invariant 0 <= idx(1) && idx(1) <= len(b.LoudnessBases) && size == louHead(b) + louSum(b.LoudnessBases, idx(1), b.Version >= 1)
+//@ func (*LoudnessBaseBox).EncodeSW
+//@   loop 1 invariant 0 <= a && a <= len(b.LoudnessBases) && adv(sw, louHead(b) + louSum(b.LoudnessBases, a, b.Version >= 1))
+//@   loop 2 invariant 0 <= a && a < len(b.LoudnessBases) && l == b.LoudnessBases[a] && 0 <= i && i <= len(l.Measurements)
+//@   loop 2 invariant adv(sw, louHead(b) + louSum(b.LoudnessBases, a, b.Version >= 1) + ite(b.Version >= 1, 8, 7) + 3*i)
+
+// ---------------------------------------------------------------- mvhd
+// FINDING: DecodeMvhdSR (mvhd.go:62-72) accepts any version byte and treats version >= 2 as version 0, Size() (mvhd.go:88-93)
+// likewise, but EncodeSW (mvhd.go:114-124) writes the 64-bit layout (120 bytes) for every version != 0.
+// Not established by the decoder; test TestC02aMvhdVersion2.
+// (repaired by a fix: commit; no representation invariant needed any more)
+
+// ---------------------------------------------------------------- prft
+// FINDING: DecodePrftSR (prft.go:61-71) and CreatePrftBox (prft.go:39) accept any version byte; for Version >= 2 Size()
+// (28+4*Version, prft.go:90) and EncodeSW (32 bytes, prft.go:114-118) disagree. Not established by the decoder; test TestC02aPrftVersion2.
+// (repaired by a fix: commit; no representation invariant needed any more)
+
+// ---------------------------------------------------------------- pssh
+// SystemID and every KID are read with ReadFixedLengthString(16) by the decoder (pssh.go:102, 106; a short read is an error result).
+// FINDING: the constructor NewPsshBox (pssh.go:57, 72) does NOT establish it: NewUUIDFromString -> UnpackKey (uuid.go:399-403)
+// accepts any 24-character base64 string, which decodes to 18 bytes when unpadded; Size() then counts 16 bytes per UUID and
+// EncodeSW writes 18. Test TestC02aPsshBase64SystemID.
+//@ pred boxOK@PsshBox(b *PsshBox) = len(b.SystemID) == 16 && (forall i int :: 0 <= i && i < len(b.KIDs) ==> len(b.KIDs[i]) == 16)
+//@ func (*PsshBox).EncodeSW
+//@   loop 1 invariant b.Version > 0 && adv(sw, 32 + 16*idx(1))
+
+// ---------------------------------------------------------------- saio
+// 32-bit entry count (saio.go:53, entries appended one per count, saio.go:61/68); AuxInfoType is read with ReadFixedLengthString(4)
+// when flag 0x01 is set (saio.go:50) and is unused otherwise.
+//@ pred boxOK@SaioBox(b *SaioBox) = len(b.Offset) < 1<<32 && (b.Flags&0x01 != 0 ==> len(b.AuxInfoType) == 4)
+//@ spec saioHead(b *SaioBox) int = ite(b.Flags&0x01 != 0, 24, 16)
+//@ func (*SaioBox).EncodeSW
+//@   loop 1 invariant 0 <= i && i <= len(b.Offset) && b.Version == 0 && adv(sw, saioHead(b) + 4*i)
+//@   loop 2 invariant 0 <= i && i <= len(b.Offset) && b.Version != 0 && adv(sw, saioHead(b) + 8*i)
+
+// ---------------------------------------------------------------- saiz
+// AuxInfoType is read with ReadFixedLengthString(4) when flag 0x01 is set (saiz.go:40) and is unused otherwise.
+//@ pred boxOK@SaizBox(b *SaizBox) = b.Flags&0x01 != 0 ==> len(b.AuxInfoType) == 4
+//@ func (*SaizBox).EncodeSW
+//@   loop 1 invariant i <= b.SampleCount && b.DefaultSampleInfoSize == 0 && adv(sw, ite(b.Flags&0x01 != 0, 25, 17) + int(i))
+
+// ---------------------------------------------------------------- sbgp
+// GroupingType is read with ReadFixedLengthString(4) (sbgp.go:43); the two entry slices are appended pairwise, one pair
+// per 32-bit entry count (sbgp.go:47, 54-55). Size() counts GroupDescriptionIndices, EncodeSW iterates over SampleCounts.
+//@ pred boxOK@SbgpBox(b *SbgpBox) = len(b.GroupingType) == 4 && len(b.SampleCounts) == len(b.GroupDescriptionIndices) && len(b.SampleCounts) < 1<<32
+//@ func (*SbgpBox).EncodeSW
+//@   loop 1 invariant 0 <= i && i <= entryCount && entryCount == len(b.SampleCounts) && adv(sw, ite(b.Version == 1, 24, 20) + 8*i)
+
+// ---------------------------------------------------------------- schm
+// SchemeType is read with ReadFixedLengthString(4) (schm.go:37)
+//@ pred boxOK@SchmBox(b *SchmBox) = len(b.SchemeType) == 4
+
+// ---------------------------------------------------------------- sdtp
+// no representation invariant needed
+//@ func (*SdtpBox).EncodeSW
+//@   loop 1 invariant adv(sw, 12 + idx(1))
+
+// ================================================================ stretch goal: the decoders establish boxOK
+//@ func DecodeColrSR
+//@   ensures[C02] result1 == nil ==> boxOK(result0)
+//@ func DecodeHdlrSR
+//@   ensures[C02] result1 == nil ==> boxOK(result0)
+//@ func DecodeSchmSR
+//@   ensures[C02] result1 == nil ==> boxOK(result0)
+//@ func DecodeSaizSR
+//@   ensures[C02] result1 == nil ==> boxOK(result0)
+//@ func DecodeLoudnessBaseBoxSR
+//@   ensures[C02] result1 == nil ==> boxOK(result0)
+// (DecodeCslgSR, DecodeMvhdSR, DecodePrftSR do not establish boxOK: with the clause added the post fails with a counterexample, see FINDINGs)
+//@ func DecodeCo64SR
+//@   ensures[C02] result1 == nil ==> boxOK(result0)
+//@   loop 1 invariant len(b.ChunkOffset) == int(nrEntries)
+//@ func DecodeCttsSR
+//@   ensures[C02] result1 == nil ==> boxOK(result0)
+//@   loop 1 invariant len(b.SampleOffset) == int(entryCount) && len(b.EndSampleNr) == int(entryCount+1)
+//@ func DecodeElstSR
+//@   ensures[C02] result1 == nil ==> boxOK(result0)
+//@   loop 1 invariant len(b.Entries) == int(entryCount)
+//@   loop 2 invariant len(b.Entries) == int(entryCount)
+//@ func DecodeSaioSR
+//@   ensures[C02] result1 == nil ==> boxOK(result0)
+//@   loop 1 invariant len(b.Offset) == int(i) && i <= entryCount && (b.Flags&0x01 != 0 ==> len(b.AuxInfoType) == 4)
+//@   loop 2 invariant len(b.Offset) == int(i) && i <= entryCount && (b.Flags&0x01 != 0 ==> len(b.AuxInfoType) == 4)
+//@ func DecodeSbgpSR
+//@   ensures[C02] result1 == nil ==> boxOK(result0)
+//@   loop 1 invariant 0 <= i && i <= entryCount && entryCount < 1<<32 && len(b.SampleCounts) == i && len(b.GroupDescriptionIndices) == i
+//@   loop 1 invariant sr.(*bits.FixedSliceReader).err == nil ==> len(b.GroupingType) == 4
+//@ func DecodePsshSR
+//@   ensures[C02] result1 == nil ==> boxOK(result0)
+//@   loop 1 invariant sr.(*bits.FixedSliceReader).err == nil ==> len(b.SystemID) == 16 && (forall j int :: 0 <= j && j < len(b.KIDs) ==> len(b.KIDs[j]) == 16)
